@@ -6,7 +6,19 @@ LEVEL_NOTE = ("Trusted: Kani 0.68/CBMC 6.11 translation and bit-precise models; 
               "(differentially validated against the native functions on every run); rustc nightly MIR == stable codegen for the integer "
               "kernels; inert backtrace stub; removal of cfg(not(kani)) gates in the verified copy. Bounds are listed per obligation in the evidence file.")
 
+E2TXT = ("Symbolic execution of the functions' rustc MIR (dumped from /repo's tree on every run) into integer SMT with explicit "
+         "machine-width range/wrap/overflow conditions; every feasible path's post-condition (and panic-freedom, dev and release "
+         "semantics) decided by z3 at the full width of the input types; interpreter differentially validated against the native "
+         "functions on every run; counterexamples replayed natively before being reported.")
 CLAIMS = {
+    "C01": (E2TXT + " Operations: + - neg abs, += -=, +/- Unit, * i64, i64 *, / i64.", "3 (C01)",
+            "symbolic execution of rustc MIR + z3 (integer SMT, full width); native replay"),
+    "C02": (E2TXT + " Functions: from_parts/normalize, from_total_nanoseconds, total_nanoseconds, (try_)truncated_nanoseconds, "
+            "from_truncated_nanoseconds, Unit*i64, i64*Unit.", "3 (C02)",
+            "symbolic execution of rustc MIR + z3 (integer SMT, full width); native replay"),
+    "C14": (E2TXT + " floor/ceil/round with both operands symbolic (division by a symbolic step through fresh quotient/remainder "
+            "and the division lemma; symbolic products uninterpreted with instantiated facts, counterexamples refined with real multiplication).", "3 (C14)",
+            "symbolic execution of rustc MIR + z3 (division lemma, UF multiplication + refinement); native replay"),
     "C03": ("Kani/CBMC bounded model checking of the real Duration comparison and equality code over all pairs/triples of constructor inputs; "
             "solver verdict per obligation, counterexamples replayed natively before being reported.",
             "3 (C03)", "bounded model checking (Kani/CBMC SAT) over symbolic inputs; native replay of counterexamples"),
